@@ -269,7 +269,7 @@ def handoff(ctx, host, lines, quick):
     later = {}
 
     def build(i):
-        p = subprocess.run(["go", "build", "-gcflags=-e", "./p%d/..." % (i + 1)], cwd=root, env=ctx.goenv(), stdout=subprocess.PIPE, stderr=subprocess.STDOUT, text=True, timeout=900)
+        p = subprocess.run(["go", "build", "-gcflags=-e", "./p%d/..." % (i + 1)], cwd=root, env=ctx.goenv(gen=True), stdout=subprocess.PIPE, stderr=subprocess.STDOUT, text=True, timeout=900)
         return i, p.returncode, p.stdout
     todo = []
     for i, o in enumerate(out):
